@@ -68,7 +68,7 @@ def _preorder(stmts: List[ast.stmt]):
         stack.extend(reversed(kids))
 
 
-def _touched(stmts: List[ast.stmt], name: str) -> Set[str]:
+def _touched(stmts: List[ast.stmt], name: str, everywhere: bool = False) -> Set[str]:
     """Names re-bound, stored through, or mutated by a method call at a point of stmts that can run between the
     binding of `name` (just before stmts) and one of its reads: before the last read in source order, or inside a loop
     of stmts that also holds a read."""
@@ -76,7 +76,7 @@ def _touched(stmts: List[ast.stmt], name: str) -> Set[str]:
     for k, n in enumerate(_preorder(stmts)):
         order[id(n)] = k
     reads = [n for s in stmts for n in ast.walk(s) if isinstance(n, ast.Name) and n.id == name and isinstance(n.ctx, ast.Load)]
-    last = max(order[id(n)] for n in reads)
+    last = max((order[id(n)] for n in reads), default=-1) if not everywhere else 10 ** 9
     loops = [l for s in stmts for l in ast.walk(s) if isinstance(l, (ast.For, ast.While, ast.AsyncFor))]
     loop_nodes = [({id(x) for x in ast.walk(l)}) for l in loops]
     loop_nodes = [ids for ids in loop_nodes if any(id(r) in ids for r in reads)]
@@ -172,8 +172,9 @@ def _one_pass(fn, recorded: Dict[str, list], suspects: Set[str] = frozenset(), l
             nested_names |= {x.id for x in ast.walk(n) if isinstance(x, ast.Name)}
     declared = {nm for n in _own(fn) if isinstance(n, (ast.Global, ast.Nonlocal)) for nm in n.names}
     for name in sorted(bs):
-        if name in recorded or name in par or name in nested_names or name in declared or name == "_" or name in suspects:
+        if name in recorded or name in par or name in declared or name == "_" or name in suspects:
             continue
+        in_nested = name in nested_names
         if len(bs[name]) != 1 or bs[name][0][0] != "assign":
             continue
         value = bs[name][0][1]
@@ -187,7 +188,27 @@ def _one_pass(fn, recorded: Dict[str, list], suspects: Set[str] = frozenset(), l
         if home is None:
             continue
         blk, i = home
-        occurrences = [n for n in _own(fn) if isinstance(n, ast.Name) and n.id == name]
+        occurrences = [n for n in (ast.walk(fn) if in_nested else _own(fn)) if isinstance(n, ast.Name) and n.id == name]
+        if in_nested:
+            # read from a nested function (a closure): only a value whose operands are never re-bound or mutated anywhere in the
+            # function, and a name no nested scope binds itself
+            free0 = _free_loads(value)
+            order = {id(n): k for k, n in enumerate(_preorder(list(fn.body)))}
+            here = order.get(id(blk[i]), -1)
+            later_touch = set()
+            for n in ast.walk(fn):
+                r = None
+                if isinstance(n, (ast.Name, ast.Attribute, ast.Subscript)) and isinstance(getattr(n, "ctx", None), (ast.Store, ast.Del)):
+                    r = _root(n)
+                elif isinstance(n, ast.Call) and isinstance(n.func, ast.Attribute) and n.func.attr in MUTATORS:
+                    r = _root(n.func.value)
+                if r and order.get(id(n), 10 ** 9) > here:
+                    later_touch.add(r)
+            if free0 & later_touch:
+                continue
+            if any(isinstance(n, FuncDef + (ast.Lambda,)) and name in ({a.arg for a in n.args.args} | {x.id for x in ast.walk(n) if isinstance(x, ast.Name) and isinstance(x.ctx, ast.Store)})
+                   for n in ast.walk(fn) if n is not fn):
+                continue
         stores = [n for n in occurrences if not isinstance(n.ctx, ast.Load)]
         if len(stores) != 1:
             continue
@@ -276,4 +297,11 @@ def apply(trees, recorded, leaf_only: bool = False) -> List[str]:
                 d = inline_new_temps(fn, rec[q], leaf_only)
                 if d:
                     log.append(f"{rel}: {q}: new temporaries substituted {d}")
+            # nested functions have their own recorded locals
+            for sub in [n for n in ast.walk(fn) if isinstance(n, FuncDef) and n is not fn]:
+                key = f"{q}.<locals>.{sub.name}"
+                if key in rec:
+                    d = inline_new_temps(sub, rec[key], leaf_only)
+                    if d:
+                        log.append(f"{rel}: {key}: new temporaries substituted {d}")
     return log
